@@ -151,7 +151,19 @@ func (env *Env) eval(x *SExpr) Value {
 		}
 		n := *env
 		n.st = env.old
-		n.lookup = nil // old() of a local makes no sense; parameters stay in vars
+		if env.lookup != nil {
+			// old() of a local makes no sense; identifiers denote the entry values of parameters
+			n.lookup = nil
+			n.vars = map[string]Value{}
+			for k, v := range env.e.params {
+				n.vars[k] = v
+			}
+			for k, v := range env.vars {
+				if _, isParam := n.vars[k]; !isParam {
+					n.vars[k] = v
+				}
+			}
+		}
 		return n.eval(x.Args[0])
 	case "sel":
 		// package-qualified name?
@@ -186,7 +198,7 @@ func (env *Env) eval(x *SExpr) Value {
 		case *types.Map:
 			return e.mapLookup(env.st, base, env.coerce(idx, u.Key()))
 		case *GhostMap:
-			return Value{T: u.V, S: []string{"(select " + base.S[0] + " " + env.coerce(idx, u.K).S[0] + ")"}}
+			return Value{T: u.V, S: []string{"(select " + base.S[0] + " " + env.coerceKey(idx, u.K) + ")"}}
 		}
 		specFail("index on %s", base.T)
 	case "update":
@@ -195,9 +207,9 @@ func (env *Env) eval(x *SExpr) Value {
 		if !ok {
 			specFail("update m[k := v] needs a ghost map, got %s", base.T)
 		}
-		k := env.coerce(env.eval(x.Args[1]), gm.K)
+		k := env.coerceKey(env.eval(x.Args[1]), gm.K)
 		v := env.coerce(env.eval(x.Args[2]), gm.V)
-		return Value{T: base.T, S: []string{"(store " + base.S[0] + " " + k.S[0] + " " + v.S[0] + ")"}}
+		return Value{T: base.T, S: []string{"(store " + base.S[0] + " " + k + " " + v.S[0] + ")"}}
 	case "un":
 		switch x.Name {
 		case "!":
@@ -524,7 +536,7 @@ func (env *Env) compare(op string, a, b Value) string {
 		case *types.Map:
 			return env.e.mapHas(env.st, b, env.coerce(a, u.Key()))
 		case *GhostMap:
-			return "(select " + b.S[0] + " " + env.coerce(a, u.K).S[0] + ")"
+			return "(select " + b.S[0] + " " + env.coerceKey(a, u.K) + ")"
 		}
 		specFail("'in' needs a map or set, got %s", b.T)
 	}
@@ -680,6 +692,15 @@ func (env *Env) call(x *SExpr) Value {
 	case "cap":
 		v := env.eval(args[0])
 		return intVal(v.S[2])
+	case "ref":
+		v := env.eval(args[0])
+		switch {
+		case isInterface(v.T):
+			return intVal(v.S[1])
+		case isRefLike(v.T):
+			return intVal(v.S[0])
+		}
+		specFail("ref() of %s", v.T)
 	case "arrayOf":
 		v := env.eval(args[0])
 		if !isSlice(v.T) {
@@ -903,4 +924,17 @@ func (e *Exec) constValue(t types.Type, c constant.Value) Value {
 	}
 	unsupportedf("constant of type %s", t)
 	return Value{}
+}
+
+// coerceKey converts a ghost-map key; references (pointers, interface payloads) index int-keyed maps.
+func (env *Env) coerceKey(v Value, kt types.Type) string {
+	if isInteger(kt) {
+		switch {
+		case isInterface(v.T):
+			return v.S[1]
+		case isRefLike(v.T):
+			return v.S[0]
+		}
+	}
+	return env.coerce(v, kt).S[0]
 }
